@@ -256,3 +256,56 @@ def opts(width, enabled_values=None, reduced=True):
         out += [(0, v) for v in vals if v != 0]
     out += [(1, v) for v in vals]
     return out
+
+
+class RawHarness:
+    """Plain-Amaranth counterpart of MethodHarness: make() -> (elaboratable, [(name, Signal[, domain])], [(name, Value)]);
+    the explorer drives the named signals directly.  Subclass implements init/alphabet/step as for MethodHarness; the
+    default alphabet is the product of the input domains."""
+
+    def __init__(self, **cfg):
+        self.cfg = cfg
+        self.counters = {}
+
+    def make(self):
+        raise NotImplementedError
+
+    def init(self):
+        return ()
+
+    def count(self, key, n=1):
+        self.counters[key] = self.counters.get(key, 0) + n
+
+    def build(self, comb_check=True):
+        from amaranth import Value
+        if comb_check:
+            with DependencyContext(DependencyManager()):
+                check_comb_cycles(self.make()[0])
+        with DependencyContext(DependencyManager()):
+            top, ins, obs = self.make()[:3]
+            self.in_domains = []
+            inputs = []
+            for item in ins:
+                sig = Value.cast(item[1])
+                inputs.append((item[0], sig))
+                if len(item) > 2 and item[2] is not None:
+                    self.in_domains.append(list(item[2]))
+                else:
+                    self.in_domains.append(list(range(1 << len(sig))))
+            self.input_names = [n for n, _ in inputs]
+            self.obs_names = [n for n, _ in obs]
+            self.n_inputs = len(inputs)
+            self.top = top
+            self.drv = Driver(top, inputs, list(obs))
+        return self.drv
+
+    def alphabet(self, ref):
+        if not hasattr(self, "_alpha"):
+            self._alpha = [tuple(v) for v in itertools.product(*self.in_domains)]
+        return self._alpha
+
+    def describe(self, inp):
+        return {n: v for n, v in zip(self.input_names, inp) if v}
+
+    def describe_obs(self, obs):
+        return {n: v for n, v in zip(self.obs_names, obs)}
